@@ -535,11 +535,46 @@ func (vc *VC) atStoreCheck(x *ssa.Store, l *LV, v Term) {
 	if l.nnKey == "" || vc.con == nil {
 		return
 	}
+	var owner Term
+	if len(l.idx) > 0 {
+		owner = l.idx[0]
+	}
+	vc.atStoreClauses(l.nnKey, x.Pos(), v, l.typ, owner, nil)
+}
+
+// fieldOfMap: the map operand is the content of a field x.f: returns "T.f" and x
+func (vc *VC) fieldOfMap(m ssa.Value) (string, ssa.Value) {
+	u, ok := m.(*ssa.UnOp)
+	if !ok || u.Op != token.MUL {
+		return "", nil
+	}
+	fa, ok := u.X.(*ssa.FieldAddr)
+	if !ok {
+		return "", nil
+	}
+	pt, ok := fa.X.Type().Underlying().(*types.Pointer)
+	if !ok {
+		return "", nil
+	}
+	st, ok := pt.Elem().Underlying().(*types.Struct)
+	if !ok {
+		return "", nil
+	}
+	return vc.e.typeName(pt.Elem()) + "." + st.Field(fa.Field).Name(), fa.X
+}
+
+// atStoreClauses: `at_store T.f: COND` clauses of the enclosing loop and of the function. COND is evaluated in
+// the state before the store with `value` bound to the stored value (for a deletion from a map: absent) and
+// `owner` to the object whose field (or whose field's map) is written.
+func (vc *VC) atStoreClauses(key string, pos token.Pos, v Term, vt types.Type, owner Term, ownerType types.Type) {
+	if vc.con == nil {
+		return
+	}
 	var acs []*BodyCall
 	where := ""
 	lh := vc.innermostLoop(vc.blk.Index)
 	if lh < 0 {
-		lh = vc.srcLoopAt(x.Pos())
+		lh = vc.srcLoopAt(pos)
 	}
 	if lh >= 0 {
 		if ls := vc.loopSpecs[lh]; ls != nil {
@@ -550,10 +585,10 @@ func (vc *VC) atStoreCheck(x *ssa.Store, l *LV, v Term) {
 	nLoop := len(acs)
 	acs = append(acs, vc.con.AtCalls...)
 	for i, ac := range acs {
-		if ac.Fn != "store:"+l.nnKey {
+		if ac.Fn != "store:"+key {
 			continue
 		}
-		vc.evalPos = x.Pos()
+		vc.evalPos = pos
 		ce := vc.envAt(vc.blk, vc.cur, nil)
 		vc.evalPos = token.NoPos
 		if lh >= 0 {
@@ -567,7 +602,12 @@ func (vc *VC) atStoreCheck(x *ssa.Store, l *LV, v Term) {
 				}
 			}
 		}
-		ce.vars["value"] = cval{t: v, typ: l.typ}
+		if v != "" {
+			ce.vars["value"] = cval{t: v, typ: vt}
+		}
+		if owner != "" {
+			ce.vars["owner"] = cval{t: owner, typ: ownerType}
+		}
 		t := ce.evalTop(ac.Req, true)
 		if ce.err != nil {
 			vc.unsupp("at_store %q: %v", ac.Text, ce.err)
@@ -581,7 +621,7 @@ func (vc *VC) atStoreCheck(x *ssa.Store, l *LV, v Term) {
 		if i >= nLoop {
 			w = ""
 		}
-		vc.check("at-store", x.Pos(), w+ac.Text, t.t, pr)
+		vc.check("at-store", pos, w+ac.Text, t.t, pr)
 	}
 }
 
@@ -971,6 +1011,9 @@ func (vc *VC) mapUpdate(x *ssa.MapUpdate) {
 		}
 	}
 	vc.disciplineMapUpdate(x, m, k, v)
+	if key, obj := vc.fieldOfMap(x.Map); key != "" {
+		vc.atStoreClauses(key, x.Pos(), v, mt.Elem(), vc.v(obj), obj.Type())
+	}
 	d, vn, ds, vs := vc.e.mapArrs(mt)
 	da, va := vc.arrCur(d, ds), vc.arrCur(vn, vs)
 	vc.setArr(d, ds, Sto(da, m, Sto(Sel(da, m), k, "true")))
